@@ -15,7 +15,7 @@ def facts_by_item(ctx, fx):
     out = {}
     for m in fx.items:
         c = crate_by_key[m.crate_key]
-        if c.get("expect_fail"):
+        if c.get("expect_fail") or getattr(m, "noop", False):
             continue
         exp = fx.expanded.get(m.crate_key)
         if exp is None:
